@@ -33,4 +33,7 @@ def check(ctx):
 
 def replay(ctx, path):
     ctx.build()
-    ac.replay_session(ctx, json.load(open(path))["replay"])
+    r = json.load(open(path))["replay"]
+    if str(r.get("kind", "")).startswith("large-upload"):      # the large sessions are cheap: all of them are run again
+        ac.big_uploads(ctx); return
+    ac.replay_session(ctx, r)
